@@ -27,6 +27,7 @@ func Targets() []*Target {
 			lintransEvaluatorTarget(),
 			polynomialEvaluatorTarget(),
 		}
+		targets = append(targets, multipartyTargets()...)
 	})
 	return targets
 }
